@@ -73,3 +73,47 @@ Proof. exact derivs_inst_3. Qed.
 
 Example C02_nonvacuous : valid_pair 0 4 /\ valid_pair 1 5 /\ dislocation_regime 6 /\ (3.5 <> 0).
 Proof. exact C02_nonvacuous_proof. Qed.
+
+(* ---- exact ties of slip-system activities (the property text sets them aside as ambiguous): the published model,
+   and with it the generated kernel, is in fact ORDER-INDEPENDENT there ------------------------------------- *)
+From PV Require Import Proofs_tie.
+
+(* for ANY activity order P whose two last positions (the two most active systems) hold systems of equal non-zero
+   activity, calling the other one "the most active" gives the same orientation rate and the same strain energy:
+   the relative slip rates of the other order are sigma times the first, sigma = +-1, hence Schmid tensor sigma G,
+   least-squares slip rate sigma g0, and spin skew L - g0 skew G and |beta_s g0| unchanged *)
+Theorem C02_tie_order_irrelevant : forall tau (A D L : arr NumR) p n lam P, tau_ok tau ->
+  let q := @spec_activities NumR tau (@spec_invariants NumR D A) in
+  q (pidx P 3) = q (pidx P 2) -> q (pidx P 3) <> 0 ->
+  spec_olivine_with tau A D L p n lam (swap_top P) = spec_olivine_with tau A D L p n lam P.
+Proof. exact tie_order_irrelevant. Qed.
+
+(* ... for the published model as a whole and for the generated kernel: at an exact tie of the two largest
+   activities both ARE the olivine formulas evaluated with either order *)
+Theorem C02_tie_order_irrelevant_kernel : forall fb tau (A D L : arr NumR) p n lam,
+  @tau_table 0 fb = Some tau -> n <> 0 ->
+  let q := @spec_activities NumR tau (@spec_invariants NumR D A) in
+  let P := @argsort4 NumR q in
+  q (pidx P 3) = q (pidx P 2) -> q (pidx P 3) <> 0 ->
+  @spec_grain NumR 0 fb A D L p n lam = Ok (spec_olivine_with tau A D L p n lam P) /\
+  @spec_grain NumR 0 fb A D L p n lam = Ok (spec_olivine_with tau A D L p n lam (swap_top P)) /\
+  k_get_rotation_and_strain 0 fb A D L p n lam = Ok (spec_olivine_with tau A D L p n lam (swap_top P)).
+Proof. exact grain_tie_order_irrelevant. Qed.
+
+(* the two middle positions may be exchanged unconditionally, the two lowest when both activities are exactly 0
+   (in olivine the least active system always has activity 0, one CRSS being infinite) *)
+Theorem C02_middle_order_irrelevant : forall tau (A D L : arr NumR) p n lam P,
+  spec_olivine_with tau A D L p n lam (swap_mid P) = spec_olivine_with tau A D L p n lam P.
+Proof. exact mid_order_irrelevant. Qed.
+Theorem C02_bottom_tie_order_irrelevant : forall tau (A D L : arr NumR) p n lam P, tau_ok tau -> p <> 0 -> n <> 0 ->
+  let inv := @spec_invariants NumR D A in
+  xs tau inv (pidx P 0) = 0 -> xs tau inv (pidx P 1) = 0 ->
+  spec_olivine_with tau A D L p n lam (swap_bot P) = spec_olivine_with tau A D L p n lam P.
+Proof. exact bottom_order_irrelevant. Qed.
+
+(* non-vacuity: olivine A-type, identity orientation, D01 = 1, D02 = 2: activities (1, 1, 0, 0), an exact tie at the top *)
+Example C02_tie_nonvacuous :
+  let q := @spec_activities NumR tauA (@spec_invariants NumR tie_D tie_A) in
+  q 0%nat = 1 /\ q 1%nat = 1 /\ q 2%nat = 0 /\ q 3%nat = 0 /\ @tau_table 0 0 = Some tauA.
+Proof. exact tie_nonvacuous_proof. Qed.
+
